@@ -15,10 +15,14 @@ import TlsModel.RecordToy
          -> ok seq' cs' earlyOk' processed' type data | skip processed' | err <name>
     recvssl2 CFG firstByte               -> err <name> | unmodelled | tls   (record framed with an SSLv2 header)
     frag split rs n                      -> comma separated fragment lengths | none
+    fragvar split n r0,r1,...            -> the same with the record size in force for record i of the
+                                            write (the last value repeats)
     wirelen CFG PRIMS PAD sendLimit type n -> length | none
     limits tls13 cset sset               -> cSend cRecv sSend sRecv   (settings: number | none)
     fifo splitA rsA splitB rsB op...     -> one token per op
-         ops: wA:<hex> wB:<hex> rA:<max|n>:<min> rB:<max|n>:<min>
+         ops: wA:<hex> wB:<hex> rA:<max|n>:<min> rB:<max|n>:<min> sA:<n> sB:<n> (conn.recordSize = n)
+              vA:<hex>:<r0,r1,..> vB:… (a write cut with record size r_i for its i-th record)
+              the rs arguments are "<effective record size>/<negotiated send limit>"
          replies: w<comma separated fragment lengths> | d<hex> | stall | alert<desc> | unmodelled | closed
 -/
 namespace Tls.Rec.Drv
@@ -89,6 +93,23 @@ def fifoStep (c : Conn idCodec idCodec) (tok : String) : Option (Conn idCodec id
     let r := epWrite idProt c.b d
     let out := match r.2.2 with | .done => "w" ++ lensOut r.2.1 | .closedError => "closed" | .unmodelled => "unmodelled"
     some (step c (.writeB d), out)
+  | ["vA", h, sizes] => do
+    -- a write during which the record size changed (`fragmentsVar`: size in force per record)
+    let d ← ofHex h
+    let l ← (sizes.splitOn ",").mapM (·.toNat?)
+    let last ← l.getLast?
+    let fr ← fragmentsVar c.a.split (fun i => l.getD i last) d
+    let (_, rs) ← protAll idProt 23 c.a.wr fr
+    some ({ c with ab := c.ab ++ rs, writtenA := c.writtenA ++ d }, "w" ++ lensOut rs)
+  | ["vB", h, sizes] => do
+    let d ← ofHex h
+    let l ← (sizes.splitOn ",").mapM (·.toNat?)
+    let last ← l.getLast?
+    let fr ← fragmentsVar c.b.split (fun i => l.getD i last) d
+    let (_, rs) ← protAll idProt 23 c.b.wr fr
+    some ({ c with ba := c.ba ++ rs, writtenB := c.writtenB ++ d }, "w" ++ lensOut rs)
+  | ["sA", n] => do some (step c (.setSizeA (← n.toNat?)), "s")
+  | ["sB", n] => do some (step c (.setSizeB (← n.toNat?)), "s")
   | ["rA", mx, mn] => do
     let mx ← optNat? (if mx == "n" then "none" else mx)
     let mn ← mn.toNat?
@@ -149,6 +170,12 @@ def handle : List String → Option String
     match fragments (← bool? split) (← rs.toNat?) (zeros (← n.toNat?)) with
     | none => some "none"
     | some fr => some (",".intercalate (fr.map fun f => toString f.length))
+  | ["fragvar", split, n, sizes] => do
+    let l ← (sizes.splitOn ",").mapM (·.toNat?)
+    let last ← l.getLast?
+    match fragmentsVar (← bool? split) (fun i => l.getD i last) (zeros (← n.toNat?)) with
+    | none => some "none"
+    | some fr => some (",".intercalate (fr.map fun f => toString f.length))
   | "wirelen" :: rest => do
     if rest.length != 20 then none
     let c ← parseCfg (rest.take 10)
@@ -163,9 +190,16 @@ def handle : List String → Option String
     let r := negotiateLimits (← bool? t13) (← optNat? cs) (← optNat? ss)
     some s!"{r.1} {r.2.1} {r.2.2.1} {r.2.2.2}"
   | "fifo" :: sa :: ra :: sb :: rb :: ops => do
+    let pair (s : String) : Option (Nat × Nat) :=
+      match s.splitOn "/" with
+      | [a, b] => do some (← a.toNat?, ← b.toNat?)
+      | [a] => do some (← a.toNat?, ← a.toNat?)
+      | _ => none
+    let (ra, la) ← pair ra
+    let (rb, lb) ← pair rb
     let ea : Endpoint Unit Unit := { wr := (), rd := (), buf := [], closed := false, resumable := true,
-                                     split := ← bool? sa, recordSize := ← ra.toNat? }
-    let eb : Endpoint Unit Unit := { ea with split := ← bool? sb, recordSize := ← rb.toNat? }
+                                     split := ← bool? sa, recordSize := ra, sendLimit := la }
+    let eb : Endpoint Unit Unit := { ea with split := ← bool? sb, recordSize := rb, sendLimit := lb }
     let c : Conn idCodec idCodec := { a := ea, b := eb, ab := [], ba := [], writtenA := [], writtenB := [],
                                       deliveredA := [], deliveredB := [], failed := false }
     let outs ← fifoRun c ops
